@@ -109,3 +109,19 @@ Theorem C07_report_wiring_is_the_sources :
             GenDecide.gen_progress_event k = Caches.progress_event k.
 Proof. exact DecideEq.report_wiring_is_source. Qed.
 Print Assumptions C07_report_wiring_is_the_sources.
+
+From DT Require GenHandlers HandlerEq.
+
+(* a block report that returns the pause signal: a receiving responder tells the initiator with a paused
+   update message (and reports a failed send), a sending responder hands the message to the transport; the
+   programs of Node.v run like those regenerated from impl/events.go OnDataReceived / OnDataQueued / OnDataSent *)
+Theorem C07_report_handlers_are_the_sources : forall k size index unique s,
+  (HandlerEq.same_run (Node.run (GenHandlers.gen_OnDataReceived k size index unique) s)
+            (snd (fst (Node.run (Node.on_data Caches.KReceived k size index unique) s)), snd (Node.run (Node.on_data Caches.KReceived k size index unique) s)) /\
+   fst (fst (Node.run (Node.on_data Caches.KReceived k size index unique) s)) = None) /\
+  HandlerEq.same_run2 (Node.run (GenHandlers.gen_OnDataQueued k size index unique) s) (Node.run (Node.on_data Caches.KQueued k size index unique) s) /\
+  (HandlerEq.same_run (Node.run (GenHandlers.gen_OnDataSent k size index unique) s)
+            (snd (fst (Node.run (Node.on_data Caches.KSent k size index unique) s)), snd (Node.run (Node.on_data Caches.KSent k size index unique) s)) /\
+   fst (fst (Node.run (Node.on_data Caches.KSent k size index unique) s)) = None).
+Proof. exact HandlerEq.report_handlers_are_source. Qed.
+Print Assumptions C07_report_handlers_are_the_sources.
